@@ -24,10 +24,63 @@ def _digest(L):
     return h.hexdigest()
 
 
+def critical_lines(scr):
+    """line windows of simplifier.py inside `with time_limit` blocks in which the managed per-function variables (sympy object, string,
+    recorded substitutions) are updated one after the other: for every statement list (body) that contains, possibly nested, at least one
+    such update, the window from its first to its last update; windows nested in a larger one are dropped.  A timeout in a window finds
+    the variables inconsistent.  A top-level body of the with-block contributes only its own direct updates."""
+    import ast
+    src = open(os.path.join(scr, "esr", "generation", "simplifier.py")).read()
+    tree = ast.parse(src)
+    managed = ("sym_fun", "str_fun", "inv_subs_fun", "change_idx", "change_vals", "to_change", "change_indices", "ref_indices", "new_inv_subs")
+
+    def is_update(n):
+        tgt = []
+        if isinstance(n, ast.Assign):
+            tgt = n.targets
+        elif isinstance(n, ast.Expr) and isinstance(n.value, ast.Call) and isinstance(n.value.func, ast.Attribute) and n.value.func.attr == "append":
+            tgt = [n.value.func.value]
+        for t in tgt:
+            b = t
+            while isinstance(b, (ast.Subscript, ast.Attribute)):
+                b = b.value
+            if isinstance(b, ast.Name) and b.id in managed:
+                return True
+        return False
+
+    wins = []
+
+    def visit_body(body, top):
+        lines = []
+        for st in body:
+            sub = []
+            for field in ("body", "orelse", "finalbody"):
+                if isinstance(getattr(st, field, None), list):
+                    sub += visit_body(getattr(st, field), False)
+            for h in getattr(st, "handlers", []):
+                sub += visit_body(h.body, False)
+            own = [st.lineno, getattr(st, "end_lineno", st.lineno)] if is_update(st) else []
+            lines += own if top else (own + sub)
+        if lines and not top:
+            wins.append((min(lines), max(lines)))
+        if top:
+            for st in body:
+                if is_update(st):
+                    wins.append((st.lineno, getattr(st, "end_lineno", st.lineno)))
+        return lines
+
+    for w in ast.walk(tree):
+        if isinstance(w, ast.With) and any(isinstance(i.context_expr, ast.Call) and getattr(i.context_expr.func, "id", "") == "time_limit" for i in w.items):
+            visit_body(w.body, True)
+    wins = sorted(set(wins))
+    keep = [x for x in wins if not any(y != x and y[0] <= x[0] and x[1] <= y[1] for y in wins)]
+    return [(lo, lo, hi) for lo, hi in keep]
+
+
 def run(tier, replay=None):
     r = evidence.Run(PID, tier, "fault_enumeration")
     rng = random.Random(evidence.seed())
-    plans = [("core_maths", 3, None, 70), ("base_e_maths", 3, None, 110)] if tier == "quick" else \
+    plans = [("core_maths", 3, None, 30), ("base_e_maths", 3, None, 45), ("core_maths", 4, None, 10)] if tier == "quick" else \
         [("core_maths", 3, None, None), ("base_e_maths", 3, None, 1200), ("core_maths", 4, None, 800), ("ext_maths", 3, None, 600)]
     nproc = 8
     for name, n, basis, budget in plans:
@@ -50,8 +103,26 @@ def run(tier, replay=None):
             for b, c in places:
                 by_site.setdefault((census[b][0], census[b][1], census[b][3][c - 1]), []).append((b, c))
             per = max(1, budget // max(1, len(by_site)))
-            for k, v in sorted(by_site.items()):
+            strata = sorted(by_site.items())
+            if len(strata) > budget:
+                strata = rng.sample(strata, budget)
+            for k, v in strata:
                 chosen += rng.sample(v, min(per, len(v)))
+        # (a) every call point made from a line inside a critical window (managed variables possibly inconsistent) -- all of them, up to a cap
+        crit = critical_lines(s0)
+        def is_crit(b, c):
+            ln = int(census[b][3][c - 1].rsplit(":", 1)[1])
+            return any(lo <= ln <= hi for _, lo, hi in crit)
+        critical = [pc for pc in places if is_crit(*pc)]
+        cap = 150 if tier == "quick" else 4000
+        if len(critical) > cap:
+            critical = rng.sample(critical, cap)
+        # (b) the first and the last block of every site (first function a rank handles in a pass, last one)
+        edge = []
+        for st in sites:
+            bl = [b for b, (fn, line, cnt, cal) in enumerate(census) if (fn, line) == st and cnt]
+            edge += [(bl[0], 1), (bl[0], census[bl[0]][2]), (bl[-1], 1)]
+        chosen = sorted(set(chosen) | set(critical) | set(edge))
         jobs = [[p] for p in chosen]
         if tier == "thorough":        # double faults: pairs in different blocks
             for _ in range(150):
@@ -110,7 +181,7 @@ def run(tier, replay=None):
                     r.violation("unsound:" + key + ":" + ",".join(cl), "after a timeout injected at %s the library violates %s: %s" % (where, cl, details[i]),
                                 {"runname": name, "n": n, "targets": tg, "where": where})
         r.add("faults_%s_n%d" % (name, n), evaluations=len(jobs), nontrivial=outcomes["different_library"], traces=len(jobs), blocks=len(census),
-              call_points=len(places), sites=len(sites), exhaustive_single_faults=exhaustive, **outcomes)
+              call_points=len(places), sites=len(sites), critical_window_placements=len(critical), exhaustive_single_faults=exhaustive, **outcomes)
         r.sample({"library": name, "n": n, "time_limited_blocks": len(census), "call_points": len(places), "sites": sites[:6], "example_placement": jobs[len(jobs) // 2]})
     r.cov["rule"] = ("fault = TimeoutException raised at the k-th Python-level call made directly from the frame that opened a `with time_limit` block of simplifier.py "
                      "(sympy_simplify, expand_or_factor, check_results); placements = all (block occurrence, call point) pairs of a fault-free census run; every injected run is "
